@@ -195,6 +195,28 @@ class OsProxy:
                 rec.add('rename', pa, pb)
         return _os.rename(a, b)
 
+    def replace(self, a, b):
+        rec = ACTIVE
+        if rec is not None and rec.enabled:
+            pa, pb = _os.path.abspath(a), _os.path.abspath(b)
+            if rec.wants(pa) or rec.wants(pb):
+                f = rec.check_fault('rename', pa)
+                if f is not None:
+                    raise OSError(f.err, _os.strerror(f.err))
+                rec.add('rename', pa, pb)
+        return _os.replace(a, b)
+
+    def link(self, a, b):
+        rec = ACTIVE
+        if rec is not None and rec.enabled:
+            pa, pb = _os.path.abspath(a), _os.path.abspath(b)
+            if rec.wants(pa) or rec.wants(pb):
+                f = rec.check_fault('link', pa)
+                if f is not None:
+                    raise OSError(f.err, _os.strerror(f.err))
+                rec.add('link', pa, pb)
+        return _os.link(a, b)
+
     def remove(self, a):
         rec = ACTIVE
         if rec is not None and rec.enabled:
@@ -273,6 +295,10 @@ def apply_op(files, e, cut=None):
         _, a, b = e
         if a in files:
             files[b] = files.pop(a)
+    elif k == 'link':
+        _, a, b = e
+        if a in files:
+            files[b] = bytearray(files[a])
     elif k == 'remove':
         files.pop(e[1], None)
 
